@@ -382,6 +382,18 @@ func (w *World) auditRead(ctx context.Context, query string) {
 	reScope := regexp.MustCompile(`(?i)\bledger"?\s*=\s*'` + regexp.QuoteMeta(strings.ReplaceAll(l.Name, "'", "''")) + `'`)
 	refs := reRef.FindAllStringSubmatch(q, -1)
 	scoped := len(reScope.FindAllString(q, -1))
+	w.mu.Lock()
+	if w.readTables == nil {
+		w.readTables = map[string]map[string]bool{}
+	}
+	task := taskKeyOf(ctx)
+	if w.readTables[task] == nil {
+		w.readTables[task] = map[string]bool{}
+	}
+	for _, m := range refs {
+		w.readTables[task][strings.ToLower(m[1])] = true
+	}
+	w.mu.Unlock()
 	if len(refs) > scoped {
 		u := UnscopedRead{Task: taskKeyOf(ctx), Ledger: l.Name, Bucket: l.Bucket, Refs: len(refs), Scoped: scoped, SQL: q}
 		for _, m := range refs {
